@@ -1,5 +1,5 @@
 import CMacVerif.Lemmas.Worker
-import CMacVerif.Model.HydroGraph
+import CMacVerif.Lemmas.HydroGraph
 import Mathlib.Tactic.SplitIfs
 /-!
 # C07 — hydro task graph: every task once, in order, conflict-free, always finishes
@@ -269,3 +269,218 @@ theorem measure_decreases (G : Graph τ ρ) (hG : WF G) (s s' : WState τ) (hs :
         · exact Nat.le_of_eq (weight_upd_other G s _ _ _ _ x (upd_other _ _ _ hx))
 
 end CMacVerif.Worker
+
+/-! ## Part 2 — the hydro task graph of every layout is a well-formed DAG -/
+namespace CMacVerif.HydroGraph
+open CMacVerif.Worker
+
+theorem fluxDownTask_exists {L : Layout} {g : Sub} (hg : valid L g = true) (ax : Axis) :
+    exists_ L (fluxDownTask L ax g) = true := by
+  unfold fluxDownTask
+  cases h : ngbDown L ax g with
+  | none => simp [exists_, hg, slotExists, h]
+  | some m => simp [exists_, (ngbDown_ngbUp hg h).1, slotExists]
+
+theorem gradDownTask_exists {L : Layout} {g : Sub} (hg : valid L g = true) (ax : Axis) :
+    exists_ L (gradDownTask L ax g) = true := by
+  unfold gradDownTask
+  cases h : ngbDown L ax g with
+  | none => simp [exists_, hg, slotExists, h]
+  | some m => simp [exists_, (ngbDown_ngbUp hg h).1, slotExists]
+
+theorem optTask_exists {L : Layout} {g : Sub} (hg : valid L g = true) (ax : Axis) (s : Slot)
+    (hs : ∀ n, slotExists L n s = true) : ∀ c ∈ optTask (ngbUp L ax g) s, exists_ L c = true := by
+  intro c hc
+  unfold optTask at hc
+  cases h : ngbUp L ax g with
+  | none => rw [h] at hc; cases hc
+  | some n =>
+    rw [h] at hc
+    simp only [List.mem_cons, List.not_mem_nil, or_false] at hc
+    subst hc
+    simp [exists_, (ngbUp_ngbDown hg h).1, hs]
+
+/-- children of an existing task exist (no dangling child index) -/
+theorem children_exist (L : Layout) (p : Task) (hp : exists_ L p = true) :
+    ∀ c ∈ children L p, exists_ L c = true := by
+  obtain ⟨g, sp⟩ := p
+  simp only [exists_, Bool.and_eq_true] at hp
+  obtain ⟨hg, _⟩ := hp
+  have hf := fun ax => @fluxDownTask_exists L g hg ax
+  intro c hc
+  rcases sp with _ | ax | ax | _ | _ | _ | ax | ax | _ | _ <;>
+    simp only [children, List.mem_cons, List.not_mem_nil, or_false] at hc
+  case gradUp =>
+    rcases hc with rfl | hc
+    · simp [exists_, hg, slotExists]
+    · exact optTask_exists hg ax _ (by intro n; rfl) c hc
+  case fluxUp =>
+    rcases hc with rfl | hc
+    · simp [exists_, hg, slotExists]
+    · exact optTask_exists hg ax _ (by intro n; rfl) c hc
+  case predict =>
+    rcases hc with rfl | rfl | rfl | rfl | rfl | rfl | rfl <;>
+      first | exact hf _ | simp [exists_, hg, slotExists]
+  all_goals (first | (subst hc; simp [exists_, hg, slotExists]) | cases hc)
+
+theorem parents_exist (L : Layout) (c : Task) (hc : exists_ L c = true) :
+    ∀ p ∈ parents L c, exists_ L p = true := by
+  obtain ⟨g, sc⟩ := c
+  simp only [exists_, Bool.and_eq_true] at hc
+  obtain ⟨hg, _⟩ := hc
+  have hf := fun ax => @fluxDownTask_exists L g hg ax
+  have hgr := fun ax => @gradDownTask_exists L g hg ax
+  intro p hp
+  rcases sc with _ | ax | ax | _ | _ | _ | ax | ax | _ | _ <;>
+    simp only [parents, List.mem_cons, List.not_mem_nil, or_false] at hp
+  case fluxUp =>
+    rcases hp with rfl | hp
+    · simp [exists_, hg, slotExists]
+    · exact optTask_exists hg ax _ (by intro n; rfl) p hp
+  case limiter =>
+    rcases hp with rfl | rfl | rfl | rfl | rfl | rfl | rfl <;>
+      first | exact hgr _ | simp [exists_, hg, slotExists]
+  case updCons =>
+    rcases hp with rfl | rfl | rfl | rfl | rfl | rfl | rfl <;>
+      first | exact hf _ | simp [exists_, hg, slotExists]
+  all_goals (first | (subst hp; simp [exists_, hg, slotExists]) | cases hp)
+
+/-- **The hydro task graph of every layout and periodicity is well-formed**: the enumeration has
+no duplicates, child and parent lists stay inside it, and the child lists are exactly the
+inverse of the parent lists, with multiplicity (this uses the mutuality of the neighbour
+relation, including periodic axes with one or two subgrids). -/
+theorem hydro_wf (L : Layout) : WF (graph L) where
+  nodup := allTasks_nodup L
+  childIn := by
+    intro p hp c hc
+    rw [graph, mem_allTasks] at hp ⊢
+    exact children_exist L p hp c hc
+  parentIn := by
+    intro c hc p hp
+    rw [graph, mem_allTasks] at hc ⊢
+    exact parents_exist L c hc p hp
+  consistent := by
+    intro p hp c hc
+    rw [graph, mem_allTasks] at hp hc
+    exact consistent L p c hp hc
+
+/-- **acyclic**: every child is in a strictly later phase than its parent
+(gradient → limiter → predict → flux → update conserved → update primitives) -/
+theorem hydro_rank (L : Layout) (p : Task) (c : Task) (hc : c ∈ children L p) :
+    phase p.slot < phase c.slot := by
+  obtain ⟨g, sp⟩ := p
+  have hall : (children L ⟨g, sp⟩).all (fun c => decide (phase sp < phase c.slot)) = true := by
+    rcases sp with _ | ax | ax | _ | _ | _ | ax | ax | _ | _ <;>
+      simp only [children, fluxDownTask, optTask] <;> (repeat' split) <;> simp [phase]
+  rw [List.all_eq_true] at hall
+  simpa using hall c hc
+
+/-- **the reset counters are the in-degrees**: `reset_hydro_tasks` sets every counter to the
+number of parent edges of the task (7 / 1 / 1 / 1|2 / 7 / 1, 0 for the gradient sweeps) -/
+theorem reset_is_indegree (L : Layout) (t : Task) : resetCount L t = (parents L t).length := by
+  obtain ⟨g, s⟩ := t
+  rcases s with _ | ax | ax | _ | _ | _ | ax | ax | _ | _ <;> simp only [resetCount, parents, List.length_cons, List.length_nil]
+  case fluxUp =>
+    unfold optTask
+    cases ngbUp L ax g <;> simp
+
+/-- a task never has more than 7 children (`Task::_children[7]`) -/
+theorem children_le_7 (L : Layout) (t : Task) : (children L t).length ≤ 7 := by
+  obtain ⟨g, s⟩ := t
+  rcases s with _ | ax | ax | _ | _ | _ | ax | ax | _ | _ <;>
+    simp only [children, optTask, List.length_cons, List.length_nil] <;> (try split) <;> simp
+
+/-- the locks a task takes cover every subgrid its sweep touches … -/
+theorem lockset_covers_footprint (L : Layout) (t : Task) : ∀ x ∈ footprint L t, x ∈ lockset L t := by
+  obtain ⟨g, s⟩ := t
+  intro x hx
+  rcases s with _ | ax | ax | _ | _ | _ | ax | ax | _ | _ <;> simp only [footprint, lockset] at hx ⊢
+  case gradUp => cases h : ngbUp L ax g <;> simp only [h] at hx ⊢ <;> (try split_ifs with e) <;> simp_all
+  case fluxUp => cases h : ngbUp L ax g <;> simp only [h] at hx ⊢ <;> (try split_ifs with e) <;> simp_all
+  all_goals exact hx
+
+/-- … and never contain the same lock twice (a task never try-locks a lock it already holds) -/
+theorem lockset_nodup (L : Layout) (t : Task) : (lockset L t).Nodup := by
+  obtain ⟨g, s⟩ := t
+  rcases s with _ | ax | ax | _ | _ | _ | ax | ax | _ | _ <;> simp only [lockset]
+  case gradUp =>
+    cases h : ngbUp L ax g <;> simp only <;> (try split_ifs with e) <;> simp
+    exact fun e' => e e'.symm
+  case fluxUp =>
+    cases h : ngbUp L ax g <;> simp only <;> (try split_ifs with e) <;> simp
+    exact fun e' => e e'.symm
+  all_goals simp
+
+/-! ## Part 3 — the property for the hydro step of every layout -/
+
+/-- For every layout `nx × ny × nz` (each ≥ 0, in particular 1 or 2 subgrids on a periodic axis),
+every periodicity, every number of threads and every interleaving: in a complete hydro step
+every task's sweep is executed **exactly once**. -/
+theorem hydro_exactly_once (L : Layout) (ls : List (Label Task))
+    (hl : ∀ l ∈ ls, exists_ L (labelTask l) = true) (s : WState Task)
+    (h : run (graph L) (init (graph L)) ls = some s) (h0 : s.num = 0) :
+    ∀ t, exists_ L t = true → s.execd t = 1 := by
+  intro t ht
+  exact executed_exactly_once (graph L) (hydro_wf L) (fun t => phase t.slot)
+    (fun p _ c hc => hydro_rank L p c hc) ls
+    (fun l hl' => (mem_allTasks L _).mpr (hl l hl')) s h h0 t ((mem_allTasks L t).mpr ht)
+
+/-- a task is only started after all tasks it depends on have been executed -/
+theorem hydro_ordered (L : Layout) (ls : List (Label Task))
+    (hl : ∀ l ∈ ls, exists_ L (labelTask l) = true) (s s' : WState Task)
+    (h : run (graph L) (init (graph L)) ls = some s) (t : Task) (ht : exists_ L t = true)
+    (hstep : step (graph L) s (.acquire t) = some s') : ∀ p ∈ parents L t, s.execd p = 1 :=
+  ordered (graph L) (hydro_wf L) s s'
+    (reachable_inv (graph L) (hydro_wf L) ls (fun l hl' => (mem_allTasks L _).mpr (hl l hl')) s h)
+    t ((mem_allTasks L t).mpr ht) hstep
+
+/-- two tasks that run at the same time never touch the same subgrid -/
+theorem hydro_conflict_free (L : Layout) (ls : List (Label Task))
+    (hl : ∀ l ∈ ls, exists_ L (labelTask l) = true) (s : WState Task)
+    (h : run (graph L) (init (graph L)) ls = some s) (a b : Task) (ha : exists_ L a = true)
+    (hb : exists_ L b = true) (hab : a ≠ b) (hra : s.st a = .running) (hrb : s.st b = .running) :
+    ∀ x ∈ footprint L a, x ∉ footprint L b := by
+  intro x hxa hxb
+  have hs := reachable_inv (graph L) (hydro_wf L) ls (fun l hl' => (mem_allTasks L _).mpr (hl l hl')) s h
+  exact conflict_free (graph L) s hs a b ((mem_allTasks L a).mpr ha) ((mem_allTasks L b).mpr hb) hab hra hrb
+    x (lockset_covers_footprint L a x hxa) (lockset_covers_footprint L b x hxb)
+
+/-- the step always terminates: as long as `number_of_tasks > 0` some thread can act, and every
+action decreases a measure bounded by `11 · #tasks` -/
+theorem hydro_progress (L : Layout) (ls : List (Label Task))
+    (hl : ∀ l ∈ ls, exists_ L (labelTask l) = true) (s : WState Task)
+    (h : run (graph L) (init (graph L)) ls = some s) (hpos : 0 < s.num) :
+    ∃ l s', exists_ L (labelTask l) = true ∧ step (graph L) s l = some s'
+      ∧ Worker.measure (graph L) s' < Worker.measure (graph L) s := by
+  have hs := reachable_inv (graph L) (hydro_wf L) ls (fun l hl' => (mem_allTasks L _).mpr (hl l hl')) s h
+  obtain ⟨l, hlU, hsome⟩ := no_stuck (graph L) s hs hpos
+  obtain ⟨s', hs'⟩ := Option.isSome_iff_exists.mp hsome
+  exact ⟨l, s', (mem_allTasks L _).mp hlU, hs', measure_decreases (graph L) (hydro_wf L) s s' hs l hlU hs'⟩
+
+theorem hydro_measure_bound (L : Layout) :
+    Worker.measure (graph L) (init (graph L)) ≤ 11 * (allTasks L).length := by
+  unfold Worker.measure
+  have : ∀ t ∈ (graph L).univ, weight (graph L) (init (graph L)) t ≤ 11 := by
+    intro t _
+    have := children_le_7 L t
+    simp only [weight, init, graph]
+    by_cases hp : (parents L t).length = 0 <;> simp only [hp, if_true, if_false] <;> omega
+  show sumOver (allTasks L) _ ≤ 11 * _
+  have hu : (graph L).univ = allTasks L := rfl
+  rw [hu] at this
+  generalize allTasks L = l at this ⊢
+  induction l with
+  | nil => simp [sumOver]
+  | cons a l ih =>
+    simp only [sumOver, List.map_cons, List.sum_cons, List.length_cons] at ih ⊢
+    have h1 := this a List.mem_cons_self
+    have h2 := ih (fun t ht => this t (List.mem_cons_of_mem _ ht))
+    omega
+
+/-- non-vacuity: a periodic 1 × 2 × 1 layout (one subgrid on the periodic x axis, two on the
+periodic y axis): the pair tasks of the single-subgrid axis lock one subgrid once -/
+example : lockset ⟨1, 2, 1, true, true, false⟩ ⟨(0, 0, 0), .fluxUp .x⟩ = [(0, 0, 0)]
+    ∧ lockset ⟨1, 2, 1, true, true, false⟩ ⟨(0, 0, 0), .fluxUp .y⟩ = [(0, 0, 0), (0, 1, 0)]
+    ∧ (allTasks ⟨1, 2, 1, true, true, false⟩).length = 28 := by decide
+
+end CMacVerif.HydroGraph
